@@ -149,7 +149,7 @@ pub fn jobs(tier: Tier) -> Vec<Job> {
     // C03b/C05b) at attempt granularity
     for (i, c) in [blocks::funding_chain(spec, 2), super::c04::gate_driver(spec, false).case].iter().enumerate() {
         let b = match tier {
-            Tier::Quick => if i == 0 { 4 } else { 3 },
+            Tier::Quick => { let _ = i; 4 }
             Tier::Thorough => 5,
         };
         v.push(pipeline_job("c01-depth", c, &RunCfg::parallel(2), FOCUS_ATTEMPT, b, true));
